@@ -46,7 +46,7 @@ def demo_tests(demo_diff):
             if top in CRATE:
                 crates.add(CRATE[top])
             continue
-        m = re.match(r"\+\s*(?:pub\s+)?(?:async\s+)?fn\s+([a-zA-Z0-9_]+)\s*\(", l)
+        m = re.match(r"\+\s*(?:pub\s+)?(?:async\s+)?fn\s+([a-zA-Z0-9_]+)\s*[<(]", l)
         if m and cur:
             names.append(m.group(1))
     return sorted(crates), names
@@ -79,7 +79,7 @@ def confirm(wt, d):
     if not names or not crates:
         out["error"] = "could not find demonstration tests in demo.diff"
         return out
-    filt = " | ".join(f"test(/{n}$/)" for n in names)
+    filt = " | ".join(f"test(/{n}(::|$)/)" for n in names)
     pk = []
     for c in crates:
         pk += ["-p", c]
